@@ -312,10 +312,31 @@ C06_S(cfg, opts, ph, s) ==
                        /\ C06_CanAccept(cfg, s, t, w)
                        /\ \A i \in DOMAIN s.af[t]: ~cfg.facs[s.af[t][i]].solo
                        /\ (cfg.facs[f].solo => Len(s.af[t]) = 0) )>> >>
+\* a READY facility task whose component is still nowhere after the allocation phase, although a
+\* candidate workplace had room for it during the whole phase (space counted pessimistically:
+\* everything that was there at the start or is there at the end), offers its skill, and holds a
+\* free facility that a free eligible worker can operate (b = state at the start of the phase)
+C06_IdleUnplaced(cfg, s1, b) ==
+  \A t \in Tasks(cfg):
+    LET c == cfg.tasks[t].comp
+    IN (/\ cfg.tasks[t].needF /\ ~cfg.tasks[t].auto /\ c # 0
+        /\ b.ts[t] = "READY" /\ b.cp[c] = 0 /\ s1.cp[c] = 0
+        /\ CompIsReady(cfg, b, c)
+        /\ \A u \in TasksOf(cfg, c): Len(s1.aw[u]) = 0) =>
+       \A p \in ToSet(cfg.tasks[t].wps):
+          LET there == ToSet(b.pc[p]) \cup ToSet(s1.pc[p])
+              room  == cfg.wps[p].cap - SumOver(there, LAMBDA x: cfg.comps[x].space)
+          IN ~( /\ room >= cfg.comps[c].space
+                /\ WpSkillSum(cfg, p, t) > 0
+                /\ \E w \in Workers(cfg): \E f \in Facs(cfg):
+                      /\ s1.ws[w] = "FREE" /\ EligibleW(cfg, w, t)
+                      /\ cfg.facs[f].wp = p /\ s1.fs[f] = "FREE" /\ s1.ft[f] = <<>>
+                      /\ EligibleF(cfg, f, t) /\ CanOperate(cfg, w, f) )
 C06_A(cfg, opts, ph, s0, s1, b) ==
   << <<"C06.A.prompt", ph = "finished" =>
          \A t \in Tasks(cfg):
-            s1.ts[t] = "WORKING" /\ s1.rem[t] <= 0 => ~C01_EndGate(cfg, s1.ts, t)>> >>
+            s1.ts[t] = "WORKING" /\ s1.rem[t] <= 0 => ~C01_EndGate(cfg, s1.ts, t)>>,
+     <<"C06.A.idle-unplaced", ph = "allocated" /\ Working(opts, s1) /\ ~s1.crash => C06_IdleUnplaced(cfg, s1, b)>> >>
 
 \* =========================== C07 ===========================================
 C07_L(cfg, opts, lg) ==
